@@ -392,6 +392,148 @@ def impl_answers(cases):
     return [model_out(a) for a in proto.run_lines(model_lines('impl', cases))]
 
 
+
+# --------------------------------------------------------------------------
+# the prepared template stream (Template.stream) against the model's `compile`
+
+def expr_of_w(v):
+    """wire expression (as decoded by proto.dec) -> JSON expression of gen_templates"""
+    k = str(v[0])
+    if k == 'V':
+        return ['v', v[1]]
+    if k == 'N':
+        return ['n']
+    if k == 'B':
+        return ['b', str(v[1]) == 'T']
+    if k == 'I':
+        return ['i', int(str(v[1]))]
+    if k == 'S':
+        return ['s', v[1]]
+    if k == 'L':
+        return ['l', [expr_of_w(a) for a in v[1:]]]
+    if k == 'D':
+        return ['d', [[kv[0], expr_of_w(kv[1])] for kv in v[1:]]]
+    if k in ('EQ', 'IX'):
+        return [k.lower(), expr_of_w(v[1]), expr_of_w(v[2])]
+    if k in ('NOT', 'LEN'):
+        return [k.lower(), expr_of_w(v[1])]
+    if k == 'CALL':
+        return ['call', v[1], [expr_of_w(a) for a in v[2]]]
+    raise ValueError(v)
+
+
+def opt_src(v):
+    return None if (isinstance(v, Atom) and v == 'NONE') else G.expr_src(expr_of_w(v))
+
+
+def model_dir(v):
+    k = str(v[0])
+    if k == 'Def':
+        return ['def', v[1], list(v[2])]
+    if k in ('When', 'Choose', 'Strip'):
+        return [k.lower(), opt_src(v[1])]
+    if k == 'Otherwise':
+        return ['otherwise', None]
+    if k == 'For':
+        return ['for', v[1], 'iter(%s)' % G.expr_src(expr_of_w(v[2]))]
+    if k in ('If', 'Attrs'):
+        return [k.lower(), G.expr_src(expr_of_w(v[1]))]
+    if k == 'With':
+        return ['with', [b[0] for b in v[1]]]
+    return [k.lower(), '?']
+
+
+def model_stream(v):
+    out = []
+    for e in v:
+        k = str(e[0])
+        if k == 'ST':
+            out.append(['ST', e[1], [[a[0], a[1]] for a in e[2]]])
+        elif k == 'EN':
+            out.append(['EN', e[1]])
+        elif k == 'TX':
+            out.append(['TX', e[1]])
+        elif k == 'EX':
+            out.append(['EX', G.expr_src(expr_of_w(e[1]))])
+        elif k == 'SUB':
+            out.append(['SUB', [model_dir(d) for d in e[1]], model_stream(e[2])])
+        else:
+            raise ValueError(e)
+    return out
+
+
+def names_of(assign):
+    n = assign.__defaults__[0]
+    return n if isinstance(n, str) else repr(n)
+
+
+def real_dir(d):
+    name = type(d).tagname
+    src = lambda: d.expr.source.strip() if d.expr is not None else None   # the old text syntax keeps the line break
+    if name == 'def':
+        return ['def', d.name, list(d.args)]
+    if name in ('when', 'choose', 'strip'):
+        return [name, src()]
+    if name == 'otherwise':
+        return ['otherwise', None]
+    if name == 'for':
+        return ['for', names_of(d.assign), src()]
+    if name in ('if', 'attrs'):
+        return [name, src()]
+    if name == 'with':
+        return ['with', [names_of(t[0][0]) for t in d.vars]]
+    return [name, '?']
+
+
+def real_stream(stream):
+    from genshi.core import START, END, TEXT
+    from genshi.template.base import EXPR, SUB
+    out = []
+    for kind, data, pos in stream:
+        if kind is START:
+            out.append(['ST', str(data[0]), [[str(k), v if isinstance(v, str) else repr(v)] for k, v in data[1]]])
+        elif kind is END:
+            out.append(['EN', str(data)])
+        elif kind is TEXT:
+            out.append(['TX', str(data)])
+        elif kind is EXPR:
+            out.append(['EX', data.source])
+        elif kind is SUB:
+            out.append(['SUB', [real_dir(d) for d in data[0]], real_stream(data[1])])
+        else:
+            out.append(['OTHER', str(kind)])
+    return out
+
+
+def prepared_real(lang, nodes):
+    try:
+        tmpl = G.template_class(lang)(G.source(lang, nodes), lookup='lenient')
+        st = real_stream(tmpl.stream)
+    except Exception as e:   # noqa
+        return ['err', type(e).__name__]
+    if lang == 'markup':
+        if len(st) >= 2 and st[0][:2] == ['ST', 'r'] and st[-1] == ['EN', 'r']:
+            st = st[1:-1]
+    return ['ok', st]
+
+
+def prepared_model(cases):
+    lines = model_lines('compile', cases)
+    out = []
+    for a in proto.run_lines(lines):
+        if a in ('unmodelled', 'bad-op', 'bad-line'):
+            out.append(None)
+            continue
+        v = proto.dec(a) if a.strip() != '( )' else []
+        if a.strip().startswith('(') and not isinstance(v, list):
+            v = [v]
+        toks = a.split()
+        # proto.dec unwraps a single item: re-wrap when the answer was a one-element list
+        if len(toks) >= 2 and toks[0] == '(' and v and not isinstance(v[0], list):
+            v = [v]
+        out.append(['ok', model_stream(v)])
+    return out
+
 ERRMAP = {'TypeError': 'type', 'IndexError': 'index', 'KeyError': 'key', 'UndefinedError': 'undefined',
           'TemplateRuntimeError': 'runtime', 'AttributeError': 'attribute', 'ValueError': 'value',
           'RuntimeError': 'genstop'}
@@ -487,6 +629,15 @@ def shard(arg):
     cases = [gen_case(rng, i) for i in range(n)]
     docs = doc_answers([dict(c, check='doc') for c in cases]) if use_model else [None] * n
     impls = impl_answers(cases) if use_model else [None] * n
+    preps = prepared_model(cases) if use_model else [None] * n
+    for c, pm in zip(cases, preps):
+        if pm is None:
+            continue
+        pr = prepared_real(c['lang'], c['nodes'])
+        res.streams['prepared-stream'] = res.streams.get('prepared-stream', 0) + 1
+        if pr != pm:
+            res.disagreements.append({'stream': 'prepared-stream', 'case': c, 'model': repr(pm)[:800],
+                                      'real': repr(pr)[:800], 'source': G.source(c['lang'], c['nodes'])})
     for c, doc, impl in zip(cases, docs, impls):
         base = real(c['lang'], c['nodes'], c['data'])
         res.evaluations += 1
